@@ -4,6 +4,7 @@ import (
 	"encoding/hex"
 	"fmt"
 
+	"verif/harness/refwmpt"
 	"verif/harness/sim"
 )
 
@@ -87,6 +88,29 @@ func Gen(prop string, r *sim.Rand, tier string) sim.Script {
 	if tier == "thorough" && r.Chance(1, 60) {
 		nKeys = 20 + r.Intn(60)
 		nOps = 100 + r.Intn(200)
+	}
+	if prop == "C12" && r.Chance(1, 3000) {
+		// an export of far more than 2^17 nodes: every key of a trie with tens of thousands of keys is requested
+		s.Huge = true
+		nKeys = 56000 + r.Intn(14000)
+		s.Keys = keyPool(r, nKeys)
+		ex := WOp{K: "export"}
+		for i := 0; i < nKeys; i++ {
+			s.Ops = append(s.Ops, WOp{K: "upd", I: i, V: []byte(fmt.Sprintf("%c%d", byte('a'+r.Intn(20)), i))})
+			ex.S = append(ex.S, i)
+		}
+		if r.Chance(1, 2) {
+			s.Ops = append(s.Ops, WOp{K: "commit", N: r.Intn(5), Sync: true})
+		}
+		s.Ops = append(s.Ops, ex)
+		for j := 0; j < 6; j++ {
+			if r.Chance(1, 3) {
+				s.Ops = append(s.Ops, WOp{K: "mdel", I: r.Intn(nKeys)})
+			} else {
+				s.Ops = append(s.Ops, WOp{K: "mupd", I: r.Intn(nKeys), V: []byte(fmt.Sprintf("z%d", j))})
+			}
+		}
+		return s
 	}
 	bulk := r.Chance(1, 120) // one commit that touches hundreds of keys (batch / buffer thresholds)
 	if bulk {
@@ -190,6 +214,26 @@ func Gen(prop string, r *sim.Rand, tier string) sim.Script {
 		}
 		s.Ops = append(s.Ops, WOp{K: "rollback", N: r.Intn(2)})
 	} else if prop == "C10" {
+		// sometimes a key owner stores a value that embeds the hash of a value node of their choosing
+		var fake []byte
+		if r.Chance(1, 6) && len(s.Keys) > 0 {
+			n++
+			fake = []byte(fmt.Sprintf("%cfake%d", byte(6+7*r.Intn(10)), n)) // first byte = 6 mod 7: the largest weight
+			fh := refwmpt.ValueHash(refwmpt.Entry{Value: fake, Weight: weightOf(fake)})
+			var v []byte
+			if r.Chance(1, 2) {
+				v = append(genVal(r, n, false), fh...)
+				if len(v) == 512 {
+					v = append([]byte{'q'}, v...)
+				}
+			} else {
+				v = append([]byte{}, fh...)
+				for i := 1; i < 16; i++ {
+					v = append(v, refwmpt.Empty...)
+				}
+			}
+			s.Ops = append(s.Ops, WOp{K: "upd", I: r.Intn(len(s.Keys)), V: v})
+		}
 		// the prover is an in-memory trie or a trie reloaded from storage, not updated afterwards
 		switch r.Intn(3) {
 		case 0:
@@ -212,6 +256,9 @@ func Gen(prop string, r *sim.Rand, tier string) sim.Script {
 		}
 		for j := r.Intn(4); j > 0; j-- {
 			s.Ops = append(s.Ops, WOp{K: "t." + enabled[r.Intn(len(enabled))], A: r.Intn(16), B: r.Intn(1 << 20)})
+		}
+		if fake != nil && r.Chance(3, 4) {
+			s.Ops = append(s.Ops, WOp{K: "t.leafas", A: r.Intn(16), V: fake})
 		}
 		s.Ops = append(s.Ops, WOp{K: "verify"})
 	} else if prop == "C12" {
